@@ -17,8 +17,9 @@ TXT = {
  "C11": ("TLC enumerates every edge of the RFC 7541 decoder graph, all Huffman strings <= 2 octets (3-4 via the TLC-emitted trie) and prefix-integer classes; each case fed to the real Decoder whole and at every split; Trace_Hpack decides", "4 C11"),
  "C12": ("TLC: FrameLayout round-trip and reference vectors, IoChunk staging model (exhaustive schedules of short writes / Pending / WriteZero / read chunking) replayed literally on the real Codec; Trace_Codec decides; connection-level rule C12.out_size on all traces", "4 C12"),
  "C13": ("TLC enumerates all header-class lists up to length 4 (5) with RFC 9113 section 8 verdicts and the content-length automaton; each instantiated with bytes through a literal HPACK encoder and replayed on the real client/server; Trace_Http decides", "4 C13"),
- "C14": ("TLA+ FIFO acknowledgement ledgers + epoch rule (settings govern from the ACK's position in the endpoint's own output) evaluated by TLC on real traces incl. SETTINGS/PING bursts while the endpoint is blocked mid-frame", "4 C14"),
- "C15": ("TLA+ GOAWAY rules (monotone last-stream-id, covers surfaced streams, nothing new after GOAWAY) evaluated by TLC on real traces", "4 C15"),
+ "C14": ("TLC exhaustive on the implementation model of the connection control machinery H2Conn (MC_Conn, both roles: every SETTINGS acknowledged exactly once in order with its values applied when the ACK is buffered, every PING answered once in order, one local SETTINGS outstanding, single-slot asserts unreachable, no lost wake-up) bound to the code by replaying TLC-generated behaviours and comparing every control frame, API result and snapshot per step; TLA+ FIFO acknowledgement ledgers + epoch rule evaluated by TLC on real traces incl. SETTINGS/PING bursts while the endpoint is blocked mid-frame", "4 C14, 11.9"),
+ "C15": ("TLC exhaustive on H2Conn (MC_Conn: GOAWAY ids monotone and never below a surfaced stream, cut-off after GOAWAY sent / received, two-phase graceful shutdown completes also with stray / user PING ACKs, result reports the peer's code, idle client close) bound to the code by step-by-step replay; TLA+ GOAWAY / shutdown rules evaluated by TLC on real traces (scripted GOAWAY at any moment, graceful / abrupt shutdown at any moment, delayed shutdown-ping acks)", "4 C15, 11.9"),
+ "C20": ("handle operations (send_data, reset, drops, reserve / capacity, poll_data, release, send_request, drop of the last SendRequest) executed INSIDE the read / write / flush callbacks of the connection task's transport - the lock-release points of Connection::poll - on parked handles, deterministic and seeded; the recorded traces are validated by TLC against ALL TLA+ contract monitors (every rule of C01-C19), a watchdog turns a lock held across a transport call into C20.deadlock; the frame-parked-in-the-codec window is explored exhaustively by TLC in MC_Send", "4 C20, 11.8"),
  "C16": ("TLC exhaustive on H2Send + H2Api capacity rules (census invariant in EVERY reachable state: assigned never exceeds credit); model bound to code by step-by-step snapshot conformance; rules incl. pool/starvation evaluated by TLC on real traces with competing streams", "4 C16"),
  "C17": ("TLA+ reset ledger (one RST_STREAM, right code, none after clean close, no data after reset, others undisturbed) on real traces with resets at every position incl. partly written frames; peer error surfacing rules", "4 C17"),
  "C18": ("closed-form bounds over the endpoint's configuration (H2Bounds.tla: records not held by the application, buffered received events, queued frames, quota counters, CONTINUATION frames per block, owed acknowledgements) evaluated by TLC on every statistics snapshot of real executions under generated floods (dense snapshots after every poll of the connection task), small random limits, non-accepting applications and blocked writes; the store bound is derived and shown tight by TLC on the implementation model H2Streams (MC_Streams InvC18), which is bound to the code by snapshot conformance", "4 C18, 11.7"),
@@ -36,13 +37,13 @@ for pid in sorted(PLAN):
         "replay_cmd_template": "bin/check %s --replay {path}" % pid,
         "engine": "tlc+h2sim",
         "level_claimed": {"category": p["level"], "text": text, "design_ref": "DESIGN.md section " + ref},
-        "level_note": "trusted base: TLC 1.8 + CommunityModules Json reader, the harness transport/parser/HPACK reference, rustc; exhaustive only within the stated small constants of the MC slices; real-code executions are sampled (seeded) or TLC-generated, not all executions",
+        "level_note": ("systematic lock-point interleavings only (one OS thread, operations injected at the transport callbacks); real multi-threaded executions and memory-model effects of the user-ping atomics are NOT covered by this check; " if pid == "C20" else "") + "trusted base: TLC 1.8 + CommunityModules Json reader, the harness transport/parser/HPACK reference, rustc; exhaustive only within the stated small constants of the MC slices; real-code executions are sampled (seeded) or TLC-generated, not all executions",
         "technique": "explicit TLA+ specification checked with TLC; conformance by trace validation of recorded executions of the real library against the TLA+ contract and by replay of TLC-generated behaviours with state comparison",
     })
 claimed = set(PLAN)
 na = []
 props = [json.loads(l) for l in open('/verif/properties.jsonl')]
-NA_REASON = {"C20": "check under construction in this round: the deterministic part (handle operations injected at the transport callbacks inside the connection's poll) and the threaded driver are being built; not claimed yet"}
+NA_REASON = {}
 for pr in props:
     if pr["id"] not in claimed:
         na.append({"property_id": pr["id"], "reason": NA_REASON.get(pr["id"], "check under construction in this round (see DESIGN.md section 10); not claimed yet")})
